@@ -590,3 +590,11 @@ SELFTEST = [
 LEVEL_TEXT += " Also (R3b = C16.R1): each detached handler task owns a waitgroup worker until its handler future completed, which is what makes the join's wait cover detached handlers."
 
 LEVEL_TEXT += " Also (R6): each waiter's is_terminated() is exactly that of its own shared handle, and both protocol sub-builders of the connection builder get a timer (hyper's HTTP/1 header-read timeout lets shutdown finish past a half-sent request)."
+
+
+SELFTEST += [
+    {"name": "accepted-socket-nodelay", "kind": "benign", "why": "the property holds: TCP_NODELAY on accepted sockets does not affect what a graceful close delivers",
+     "edits": [(_S, "                        (sock, remote_addr) = http_acceptor.accept() => {\n", "                        (sock, remote_addr) = http_acceptor.accept() => {\n                            let _ = sock.set_nodelay(true);\n")]},
+    {"name": "accepted-socket-zero-linger", "kind": "mutant", "expect": ["C17.R5"], "why": "zero SO_LINGER: the close at graceful shutdown resets the connection and drops queued response bytes",
+     "edits": [(_S, "                        (sock, remote_addr) = http_acceptor.accept() => {\n", "                        (sock, remote_addr) = http_acceptor.accept() => {\n                            let _ = sock.set_linger(Some(std::time::Duration::ZERO));\n")]},
+]
